@@ -181,6 +181,20 @@ static void mode_copy(void) {
       mzd_free(Az); pm_free(A);
       vx_case_end();
     }
+    /* self copy (returns the argument unchanged) and copy into a LARGER destination (only the top-left r x c block is replaced) */
+    for (int big = 0; big < 5; big++) {
+      static const int ER[] = {0, 0, 1, 2, 1}, EC[] = {0, 1, 0, 64, 70};
+      if (!vx_case_begin("mzd_copy|%s|%dx%d|+%d,+%d", big ? "DST=larger" : "DST=self", r, c, ER[big], EC[big])) continue;
+      char desc[100]; snprintf(desc, sizeof desc, "%dx%d into %dx%d", r, c, r + ER[big], c + EC[big]);
+      pm *A = pm_pat(r, c, (pat){P_PR, 0, 1}); mzd_t *Az = mzd_from_pm(A);
+      if (!big) { mzd_t *R = mzd_copy(Az, Az); if (R != Az) vx_fail("mzd_copy", "return-value", "%s: self copy returned another matrix", desc); expect("mzd_copy", "copy", Az, A, desc); }
+      else { pm *Dp = pm_pat(r + ER[big], c + EC[big], (pat){P_PR, 0, 5}), *E = pm_copy(Dp); for (int i = 0; i < r; i++) for (int j = 0; j < c; j++) pm_set(E, i, j, pm_get(A, i, j));
+        mzd_t *Dz = mzd_from_pm(Dp), *R = mzd_copy(Dz, Az); if (R != Dz) vx_fail("mzd_copy", "return-value", "%s: different matrix returned", desc);
+        expect("mzd_copy", "copy-into-larger", Dz, E, desc); unchanged("mzd_copy", Az, A, "A", desc); mzd_free(Dz); pm_free(Dp); pm_free(E); }
+      vx_input(pm_hash(A) + (uint64_t)big * 77, 1);
+      mzd_free(Az); pm_free(A);
+      vx_case_end();
+    }
     /* copy_row: row j of A into row i of B; B at least as wide as A; everything else of B untouched */
     static const int EXTRA[] = {0, 1, 64, 70};
     for (int ei = 0; ei < 4; ei++) for (int pi = 0; pi < 2; pi++) {
